@@ -165,6 +165,8 @@ pub struct ExecOpts {
 pub struct ArenaBk {
     /// C07: objects protected by resurrection until the next cycle-start marker
     pub protected: Vec<u32>,
+    /// C07: the objects that were resurrected in the running cycle (roots of the protected closure)
+    pub resurrected: Vec<u32>,
     /// C07: mutation happened since the running cycle left Sleeping
     pub mutated_since_wake: bool,
     /// root barrier owed: a mutate_root / map_root happened while marking
